@@ -1070,14 +1070,16 @@ def c17(tier):
             J("VerifC17_Reversed", "A", PAIRS=4, WINDOWS=3), J("VerifC17_Reversed", "W", PAIRS=4, WINDOWS=3), J("VerifC17_Reversed", "N", PAIRS=4, WINDOWS=3),
             J("VerifC17_Stable", "W", C17_WIDE),
             J("VerifC17_Stable", "A"), J("VerifC17_Stable", "B"), J("VerifC17_Stable", "N"), T("graph", "VerifC17_StableNames", {}, **C17_SCHED),
-            J("VerifC17_Cycles", "A"), J("VerifC17_Cycles", "C"), J("VerifC17_Cycles", "H")]
+            J("VerifC17_Cycles", "A"), J("VerifC17_Cycles", "C"), J("VerifC17_Cycles", "H"),
+            T("graph", "VerifC17_Lookup", dict(FAMS["A"][0], LEN=W(tier, 6, 8)), init_allow=["gonum.org/v1/gonum/graph/encoding/dot"]),
+            T("graph", "VerifC17_Lookup", dict(FAMS["H"][0], LEN=W(tier, 6, 8)), init_allow=["gonum.org/v1/gonum/graph/encoding/dot"])]
     if not q:
         jobs += [J("VerifC17_Faithful", "Q"), J("VerifC17_Faithful", "G"), J("VerifC17_Faithful", "E"), J("VerifC17_Faithful", "L"), J("VerifC17_Faithful", "P"),
                  J("VerifC17_Reversed", "C", PAIRS=4, WINDOWS=3), J("VerifC17_Reversed", "B", PAIRS=4, WINDOWS=3), J("VerifC17_Reversed", "H", PAIRS=4, WINDOWS=3), J("VerifC17_Stable", "A", C17_WIDE),
                  J("VerifC17_Stable", "H"), J("VerifC17_Stable", "G"), J("VerifC17_Stable", "Q"),
                  J("VerifC17_Cycles", "E"), J("VerifC17_Cycles", "B")]
     out = engine_a_check("C17", tier, jobs,
-                         {"VerifC17_Faithful": ["built"], "VerifC17_Reversed": ["reversed", "paths"], "VerifC17_Stable": ["rendered"], "VerifC17_StableNames": ["rendered"], "VerifC17_Cycles": ["acyclic", "compile-time-cycle", "other-cycle"]},
+                         {"VerifC17_Faithful": ["built"], "VerifC17_Reversed": ["reversed", "paths"], "VerifC17_Stable": ["rendered"], "VerifC17_StableNames": ["rendered"], "VerifC17_Lookup": ["found", "absent"], "VerifC17_Cycles": ["acyclic", "compile-time-cycle", "other-cycle"]},
                          ["models of the stated families only (type doc with relations a,b[,c] and tupleset p; user, employee terminal types; well-formed rewrites)",
                           "gonum (multi.DirectedGraph, topo, encoding/dot) is executed as it is, except its map iterator: graph/iterator/map.go (unsafe + go:linkname into the runtime) is replaced, for the executor and for the native replay alike, by harness/dep/gonum_iterator/map.go - same unexported interface, entries produced in the order of a plain `range`",
                           "schedule = every order of the relations map in parseModel and of every map of parallel lines gonum iterates inside NewAuthorizationModelGraph/Reversed/GetDOT, and ascending or descending ULIDs; the 'wide' jobs also rotate gonum's node and edge maps inside Reversed; other map iterations take insertion order",
@@ -1085,7 +1087,8 @@ def c17(tier):
                           "edge conditions are compared only through the reversal (the property does not state them for the build); classification of cycles other than pure computed ones is left open by the property",
                           "path duality: all pairs of labels (sources in windows of PAIRS labels, every window explored when there are at most 12 labels) plus a label that does not exist"], "",
                          repeat_native=40,
-                         bounds={"names": "three relations named by any 3 of {a, A, b, ab, B, a_b, aB} (names that differ in case only or are prefixes of each other), 3 operators",
+                         bounds={"label lookup": "every byte string of length <= %d as the label (solver-decided which node it names)" % W(tier, 6, 8),
+                                 "names": "three relations named by any 3 of {a, A, b, ab, B, a_b, aB} (names that differ in case only or are prefixes of each other), 3 operators",
                                  "families": ", ".join(sorted(set(FAMILY_TEXT[n] for n in ("A", "B", "C", "H", "J", "J4", "J5", "J6", "K", "N", "W") + (() if q else ("Q", "G", "E", "L", "P")))))})
     out.finish()
 
